@@ -465,7 +465,9 @@ Inductive c01_case :=
    unlocked actions are run eagerly), micro = an explicit step schedule (used when not empty:
    forced schedules); observed log, final state, listed *)
 | CConc (st0 : estate) (o : oracle) (ths : list (req * N * option estate)) (macro micro : list N)
-        (log : list litem) (final : estate) (listed : bool).
+        (log : list litem) (final : estate) (listed : bool)
+(* concurrent episode whose requests never returned (nothing to compare; the monitor flags it) *)
+| CHung (o : oracle) (reqs : list req).
 
 (* ---------- correspondence ---------- *)
 Fixpoint corr_seq (w : world) (steps : list (req * oracle * robs * list oev)) : bool :=
@@ -538,9 +540,45 @@ Definition run_macro (hint : list nat) (c : cstate) : cstate :=
   let c1 := fold_left (fun c i => run_silent 16 c i) (seq 0 (length (c_threads c))) c in
   fold_left macro_step hint c1.
 
-Definition accepts (ths : list (req * N * option estate)) (items : list titem) (final : estate)
-           (listed : bool) (c : cstate) : bool :=
-  trace_eqb (rev (c_trace c)) items && estate_eqb (w_st (c_w c)) final &&
+Fixpoint log_states (l : list litem) : list estate :=
+  match l with
+  | [] => []
+  | LI (SetSt d) :: r => d :: log_states r
+  | _ :: r => log_states r
+  end.
+Fixpoint log_reported (l : list litem) : list estate :=
+  match l with
+  | [] => []
+  | LE _ _ rep :: r => rep :: log_reported r
+  | _ :: r => log_reported r
+  end.
+
+Definition is_setst (t : titem) : bool := match t with SetSt _ => true | _ => false end.
+Definition visible (l : list titem) : list titem := filter (fun t => negb (is_setst t)) l.
+Definition trace_states (l : list titem) : list estate :=
+  flat_map (fun t => match t with SetSt d => [d] | _ => [] end) l.
+
+Fixpoint dedup_states (prev : estate) (l : list estate) : list estate :=
+  match l with
+  | [] => []
+  | s :: r => if estate_eqb prev s then dedup_states prev r else s :: dedup_states s r
+  end.
+
+Fixpoint subseq_states (a b : list estate) : bool :=
+  match a, b with
+  | [], _ => true
+  | _ :: _, [] => false
+  | x :: a', y :: b' => if estate_eqb x y then subseq_states a' b' else subseq_states a b'
+  end.
+
+(* The observed log shows hooks and task commands in their true order, but the FSM state only as
+   sampled at those instants: the sampled sequence must be a subsequence of the model's state
+   sequence (a forced state overwritten before the next sample is not visible), the final state
+   and every result must be equal. *)
+Definition accepts (st0 : estate) (ths : list (req * N * option estate)) (items : list titem)
+           (sampled : list estate) (final : estate) (listed : bool) (c : cstate) : bool :=
+  trace_eqb (visible (rev (c_trace c))) items && estate_eqb (w_st (c_w c)) final &&
+  subseq_states (dedup_states st0 sampled) (trace_states (rev (c_trace c))) &&
   Bool.eqb (w_listed (c_w c)) listed && negb (c_lock c) &&
   all2 (fun th t => thread_result_ok th (snd (fst t)) (snd t)) (c_threads c) ths.
 
@@ -567,7 +605,7 @@ Fixpoint search (fuel : nat) (items : list titem) (accept : cstate -> bool) (c :
          if b =? 0 then (false, 0) else
          if enabled c i then
            let c' := cstep env_events api_bodyful c i in
-           if is_prefix (rev (c_trace c')) items then
+           if is_prefix (visible (rev (c_trace c'))) items then
              let '(ok, b') := search f items accept c' (b - 1) in
              if ok then (true, b') else try r b'
            else try r b
@@ -576,14 +614,15 @@ Fixpoint search (fuel : nat) (items : list titem) (accept : cstate -> bool) (c :
   end.
 
 Definition corr_conc st0 o ths (macro micro : list N) (log : list litem) final listed : bool :=
-  let items := log_items log in
+  let items := visible (log_items log) in
+  let sampled := log_states log in
   let c0 := init_c (mkWorld st0 true) (map (fun t => (prog_of (fst (fst t)), o)) ths) in
-  match micro with
-  | _ :: _ => accepts ths items final listed (run_sched env_events api_bodyful (map N.to_nat micro) c0)
-  | [] =>
-    accepts ths items final listed (run_macro (map N.to_nat macro) c0) ||
-    fst (search 120 items (accepts ths items final listed) c0 30000)
-  end.
+  let acc := accepts st0 ths items sampled final listed in
+  (match micro with
+   | _ :: _ => acc (run_sched env_events api_bodyful (map N.to_nat micro) c0)
+   | [] => acc (run_macro (map N.to_nat macro) c0)
+   end) ||
+  fst (search 120 items acc c0 30000).
 
 Definition corr01 (c : c01_case) : bool :=
   match c with
@@ -592,11 +631,13 @@ Definition corr01 (c : c01_case) : bool :=
     let sec := fsm_section env_events all_bodyful o st0 ev in
     Bool.eqb (sec_err sec) err && estate_eqb (sec_final st0 sec) final && trace_eqb (sec_trace sec) trace
   | CConc st0 o ths macro micro log final listed => corr_conc st0 o ths macro micro log final listed
+  | CHung _ _ => true
   end.
 
 (* ---------- the property evaluated on what the implementation did ---------- *)
 (* codes:
-   1  a state change that is not an edge of the documented graph (source not DONE)
+   1  a state change that is not an edge of the documented graph (sequential history, or source
+      neither DONE nor ERROR)
    2  DONE -> ERROR on an environment that is no longer listed (stale handle)        [C01-a]
    3  any other state change out of DONE
    4  a request that is not legal in the current state ran a hook of its own or sent a task command
@@ -605,19 +646,24 @@ Definition corr01 (c : c01_case) : bool :=
    6  two transitions / teardowns in progress at the same time, or a hook / task command outside
       any transition
    7  the states reported in the event stream do not follow the documented graph
-   8  the reply reports a state different from the state the environment is in *)
+   8  the reply reports a state different from the state the environment is in
+   9  concurrent callers: the environment left ERROR other than by teardown, or a request was
+      answered "Aborted" (ERROR forced) and the environment ended in a live state      [C01-b]
+   10 concurrent requests never returned (deadlock)                                     [C01-c] *)
 
-Definition edge_code (listed : bool) (e : estate * estate) : N :=
+Definition edge_code (conc listed : bool) (e : estate * estate) : N :=
   let '(a, b) := e in
   if estate_eqb a b || doc_edge a b then 0
   else if estate_eqb a sDONE then (if estate_eqb b sERROR && negb listed then 2 else 3)
+  else if conc && estate_eqb a sERROR then 9
   else 1.
 
 Fixpoint first_code (l : list N) : N :=
   match l with [] => 0 | c :: r => if c =? 0 then first_code r else c end.
 
-Definition edges_code (listed : bool) (es : list (estate * estate)) : N :=
-  first_code (map (edge_code listed) es).
+Definition edges_code (conc listed : bool) (es : list (estate * estate)) : N :=
+  first_code (map (edge_code conc listed) es).
+Definition reported_code (c : N) : N := if c =? 1 then 7 else c.
 
 (* consecutive pairs of a state sequence *)
 Fixpoint pairs_from (s : estate) (l : list estate) : list (estate * estate) :=
@@ -633,12 +679,13 @@ Definition own_item (ev : eevent) (t : titem) : bool :=
 Definition mon_step (s0 : estate) (listed0 : bool) (q : req) (ob : robs) (evs : list oev) : N :=
   let es := trace_edges s0 (ro_trace ob) ++
             [(fold_left (fun s t => match t with SetSt d => d | _ => s end) (ro_trace ob) s0, ro_final ob)] in
-  let g := edges_code listed0 es in
+  let g := edges_code false listed0 es in
   if negb (g =? 0) then g else
   let rep := pairs_from s0 (map (fun e => snd e) evs) in
   (* the event written when the task commands of a transition have succeeded already reports
      the destination; the sequence of reported states must still be a path of the graph *)
-  if negb (edges_code listed0 rep =? 0) then 7 else
+  let g2 := reported_code (edges_code false listed0 rep) in
+  if negb (g2 =? 0) then g2 else
   match q with
   | QControl ot =>
     if negb listed0 then
@@ -686,25 +733,16 @@ Fixpoint brackets_ok (depth : N) (l : list litem) : bool :=
   | LI _ :: r => (depth =? 1) && brackets_ok depth r
   end.
 
-Fixpoint log_states (l : list litem) : list estate :=
-  match l with
-  | [] => []
-  | LI (SetSt d) :: r => d :: log_states r
-  | LE _ st _ :: r => st :: log_states r
-  | _ :: r => log_states r
-  end.
-Fixpoint log_reported (l : list litem) : list estate :=
-  match l with
-  | [] => []
-  | LE _ _ rep :: r => rep :: log_reported r
-  | _ :: r => log_reported r
-  end.
-
-Definition mon_conc (st0 : estate) (log : list litem) (final : estate) (listed : bool) : N :=
+Definition mon_conc (st0 : estate) (ths : list (req * N * option estate)) (log : list litem)
+           (final : estate) (listed : bool) : N :=
   if negb (brackets_ok 0 log) then 6 else
-  let g := edges_code listed (pairs_from st0 (log_states log ++ [final])) in
+  let g := edges_code true listed (pairs_from st0 (log_states log ++ [final])) in
   if negb (g =? 0) then g else
-  if negb (edges_code listed (pairs_from st0 (log_reported log)) =? 0) then 7 else 0.
+  let g2 := reported_code (edges_code true listed (pairs_from st0 (log_reported log))) in
+  if negb (g2 =? 0) then g2 else
+  (* a control request answered Aborted has forced ERROR: afterwards only a teardown may move *)
+  if existsb (fun t => match fst (fst t) with QControl _ => snd (fst t) =? 3 | _ => false end) ths && live final
+  then 9 else 0.
 
 Definition mon01 (c : c01_case) : N :=
   match c with
@@ -717,7 +755,8 @@ Definition mon01 (c : c01_case) : N :=
     | [(a, b)] => if estate_eqb final b then 0 else 5
     | _ => 5
     end
-  | CConc st0 o ths macro micro log final listed => mon_conc st0 log final listed
+  | CConc st0 o ths macro micro log final listed => mon_conc st0 ths log final listed
+  | CHung _ _ => 10
   end.
 
 (* ---------- branch tags (measured input distribution) ---------- *)
@@ -747,6 +786,7 @@ Definition tag01 (c : c01_case) : N :=
     200 + (if can env_events st0 ev then 10 else 0) + (if err then 1 else 0) +
     (if estate_eqb final st0 then 0 else 2)
   | CConc _ _ ths _ _ _ _ _ => 300 + Nlen ths
+  | CHung _ reqs => 400 + Nlen reqs
   end.
 
 Definition report01 := report corr01 mon01 tag01.
